@@ -193,6 +193,16 @@ def rollback_threshold_rule(F, R, rid):
            "SymbolMap::roll_back only forgets the names of the failed program: a name that the program redefined is left "
            "unbound (its previous slot is still in FreeList.shadowed_slots and nothing maps to it) — after "
            "(define x 1) and a failing (begin (define x 2) (undefined-fn)), x is a free identifier", rb.loc(), sample=True)
+    # … and it is the MOST RECENT of its earlier slots: shadowed_slots is in the order the slots were shadowed, so the previous
+    # definition is found from the back (rposition / rfind / rev / pop / last / next_back); a forward search or a forward
+    # retain pass hands back the OLDEST pending slot when the name was redefined more than once
+    REV = r"::(rposition|rfind|rev|next_back|pop|last|rsplit|last_mut|nth_back|rfold|try_rfold)$"
+    has_rev = any(re.search(REV, b["callee"]) for _, b in fam_calls)
+    R.inst(rid, "SymbolMap::roll_back / the slot handed back is the most recently shadowed one", has_rev or not reads_shadowed,
+           "SymbolMap::roll_back picks the slot that a redefined name gets back with a forward pass over "
+           "FreeList.shadowed_slots (oldest first): a name with two or more earlier definitions still pending reverts to its "
+           "OLDEST definition after a failed build — later code reads a stale value, and set! through the name writes a slot "
+           "that the current functions do not read", rb.loc(), sample=True)
 
 
 def shadow_bookkeeping_rule(F, R, rid):
